@@ -28,6 +28,9 @@ package stage
 //@   requires cmp != nil && wf(cmp.Parts)
 //@   ensures  sound: result && beg < end ==> forall(x, beg, end, cov(cmp.Parts, x))
 //@   modifies nothing
+//@   loop 0 invariant walked-is-covered: beg <= cur && forall(x, beg, cur, cov(cmp.Parts, x))
+//@   loop 1 invariant -1 <= rangeindex
+//@   loop 1 invariant walked-is-covered: beg <= cur && forall(x, beg, cur, cov(cmp.Parts, x))
 
 //@ func isCompanionComplete
 //@   requires cmp != nil && wf(cmp.Parts)
